@@ -68,6 +68,38 @@ namespace Dune {
     typedef typename list_type::const_iterator const_iterator;
 
     /**
+     * @brief Constructs an empty container.
+     */
+    lru() = default;
+
+    /**
+     * @brief Copy constructor.
+     *
+     * The index of the copy refers to the entries of the copy,
+     * not to those of other.
+     */
+    lru(const lru& other)
+      : _data(other._data)
+    {
+      rebuildIndex();
+    }
+
+    /**
+     * @brief Assignment operator.
+     *
+     * The index is rebuilt such that it refers to the own entries.
+     */
+    lru& operator=(const lru& other)
+    {
+      if (this != &other)
+      {
+        _data = other._data;
+        rebuildIndex();
+      }
+      return *this;
+    }
+
+    /**
      *  Returns a read/write reference to the data of the most
      *  recently used entry.
      */
@@ -236,6 +268,14 @@ namespace Dune {
     }
 
   private:
+    //! make _index refer to the entries of _data
+    void rebuildIndex()
+    {
+      _index.clear();
+      for (iterator it = _data.begin(); it != _data.end(); ++it)
+        _index.insert(std::make_pair(it->first, it));
+    }
+
     list_type _data;
     map_type _index;
 
